@@ -32,21 +32,27 @@ pub fn issue_case(claims: &Value, marks: &[gen::TPath], decoy: Option<i64>, cnf:
     })
 }
 
-pub fn generate(thorough: bool, seed: u64, em: &mut Emitter) {
-    // bounded-exhaustive first: every claims object with <= 3 (thorough: 4) nodes and every marking of it
-    super::small::generate_issue(if thorough { 4 } else { 3 }, em);
-    super::c14::generate_edge_paths(seed, 40, em);
-    let mut r = Rng::new(seed ^ 0xC01);
-    // large documents: long arrays, wide objects, more than 255 disclosures, long names and values, deep nesting, hundreds of decoys
-    for v in 0..(if thorough { 64 } else { 16 }) {
+/// large documents: long arrays, wide objects, more than 255 disclosures, long names and values (disclosures of several KB),
+/// deep nesting, hundreds of decoys
+pub fn generate_large(seed: u64, n: usize, em: &mut Emitter) {
+    let mut r = Rng::new(seed ^ 0xC01_B16);
+    for v in 0..n {
         let mut rc = r.fork();
         let (claims, marks) = gen::large_claims_and_marking(&mut rc, v);
         let decoy = match v % 4 { 0 => Some(300 + rc.below(700) as i64), 1 => Some(2), _ => None };
-        let mut c = issue_case(&claims, &marks, decoy, false, "HS256", 1);
+        let mut c = issue_case(&claims, &marks, decoy, false, "HS256", 1 + (v / 8) % 2);
         c["tag"] = json!("large_document");
         c["nontrivial"] = json!(true);
         em.case("issue", c);
     }
+}
+
+pub fn generate(thorough: bool, seed: u64, em: &mut Emitter) {
+    // bounded-exhaustive first: every claims object with <= 3 (thorough: 4) nodes and every marking of it
+    super::small::generate_issue(if thorough { 4 } else { 3 }, em);
+    super::c14::generate_edge_paths(seed, 40, em);
+    generate_large(seed, if thorough { 64 } else { 16 }, em);
+    let mut r = Rng::new(seed ^ 0xC01);
     let n = if thorough { 60_000 } else { 3_000 };
     for i in 0..n {
         let mut rc = r.fork();
